@@ -756,7 +756,7 @@ func parseSpec(s string) (*SpecNode, error) {
 		if strings.HasPrefix(s, q+" ") {
 			i := topLevelIndex(s, "::")
 			if i < 0 {
-				return nil, fmt.Errorf("quantifier without '::' in %q", s)
+				break // `exists` / `forall` used as an ordinary identifier
 			}
 			bs, err := parseBinders(s[len(q)+1 : i])
 			if err != nil {
@@ -802,7 +802,7 @@ func parseSpec(s string) (*SpecNode, error) {
 				return nil, fmt.Errorf("unbalanced parentheses in %q", s)
 			}
 			inner := s[i+1 : j]
-			if strings.Contains(inner, "==>") || strings.Contains(inner, "forall ") || strings.Contains(inner, "exists ") {
+			if strings.Contains(inner, "==>") || (strings.Contains(inner, "::") && (strings.Contains(inner, "forall ") || strings.Contains(inner, "exists "))) {
 				// is this a call argument list? (preceded by identifier char) → handle args separately
 				if i > 0 && isIdentChar(s[i-1]) {
 					// split args at top-level commas
@@ -812,7 +812,7 @@ func parseSpec(s string) (*SpecNode, error) {
 						if k > 0 {
 							sb.WriteByte(',')
 						}
-						if strings.Contains(a, "==>") || strings.Contains(a, "forall ") || strings.Contains(a, "exists ") {
+						if strings.Contains(a, "==>") || (strings.Contains(a, "::") && (strings.Contains(a, "forall ") || strings.Contains(a, "exists "))) {
 							n, err := parseSpec(a)
 							if err != nil {
 								return nil, err
